@@ -1,1 +1,862 @@
 // Included into /repo/src/object/mod.rs as `mod verif` under cfg(json_syntax_verif).
+//
+// C06-I3  Object operations on small objects against a plain list model
+// C09/C10 the canonicalization comparator against UTF-16 code-unit order, and
+//         its total-order laws
+// C11     mapped iterators / lookups over spec-built code maps
+// C14     index independence of ==, cmp, hash, clone
+use super::index_map::verif::{canonical, entry, is_canonical, key, KEYS};
+use super::{Entry, Key, Object};
+use crate::code_map::Mapped;
+use crate::verif::util::Sink;
+use crate::{CodeMap, Value};
+use core::cmp::Ordering;
+
+// ---------------------------------------------------------------------------
+// building objects directly (entry vector + harness-built canonical index)
+
+/// Value payload `v` (0..=3) of the two-value universe used by the list model.
+pub fn val(v: u8) -> Value {
+	match v & 3 {
+		0 => Value::Null,
+		1 => Value::Boolean(false),
+		2 => Value::Boolean(true),
+		_ => Value::String(crate::String::new()),
+	}
+}
+
+pub fn val_code(v: &Value) -> u8 {
+	match v {
+		Value::Null => 0,
+		Value::Boolean(false) => 1,
+		Value::Boolean(true) => 2,
+		Value::String(s) if s.is_empty() => 3,
+		_ => 255,
+	}
+}
+
+pub fn key_code(k: &Key) -> u8 {
+	let b = k.as_bytes();
+	if b.len() == 0 {
+		3
+	} else if b.len() == 1 && b[0] == b'a' {
+		0
+	} else if b.len() == 1 && b[0] == b'b' {
+		1
+	} else if b.len() == 1 && b[0] == b'c' {
+		2
+	} else {
+		255
+	}
+}
+
+/// Object with entries `(keys[i], vals[i])` for i < n and the canonical index.
+pub fn object_of(keys: &[u8; 3], vals: &[u8; 3], n: usize) -> Object {
+	let mut entries = Vec::with_capacity(4);
+	let mut i = 0;
+	while i < 3 {
+		if i < n {
+			entries.push(Entry::new(key(keys[i]), val(vals[i])));
+		}
+		i += 1;
+	}
+	Object {
+		entries,
+		indexes: canonical(keys, n),
+	}
+}
+
+/// The object is exactly the list `(keys[i], vals[i])`, i < n: entries, length,
+/// and every key-based query answers like a linear scan of that list.
+pub fn object_is(o: &Object, keys: &[u8; 4], vals: &[u8; 4], n: usize) -> bool {
+	if o.entries.len() != n || o.len() != n || o.is_empty() != (n == 0) {
+		return false;
+	}
+	let mut i = 0;
+	while i < 4 {
+		if i < n {
+			let e = &o.entries[i];
+			if key_code(&e.key) != keys[i] || val_code(&e.value) != vals[i] {
+				return false;
+			}
+		}
+		i += 1;
+	}
+	// queries, for each of the four keys
+	let mut q = 0u8;
+	while q < 4 {
+		let name = KEYS[q as usize];
+		let mut first: Option<usize> = None;
+		let mut second: Option<usize> = None;
+		let mut count = 0;
+		let mut j = 0;
+		while j < 4 {
+			if j < n && keys[j] == q {
+				if first.is_none() {
+					first = Some(j);
+				} else if second.is_none() {
+					second = Some(j);
+				}
+				count += 1;
+			}
+			j += 1;
+		}
+		if o.contains_key(name) != first.is_some() {
+			return false;
+		}
+		if o.index_of(name) != first {
+			return false;
+		}
+		if o.redundant_index_of(name) != second {
+			return false;
+		}
+		// all indexes, in ascending order
+		let mut it = o.indexes_of(name);
+		let mut j = 0;
+		while j < 4 {
+			if j < n && keys[j] == q {
+				if it.next() != Some(j) {
+					return false;
+				}
+			}
+			j += 1;
+		}
+		if it.next().is_some() {
+			return false;
+		}
+		// values / entries in source order
+		let mut vs = o.get(name);
+		let mut es = o.get_entries_with_index(name);
+		let mut j = 0;
+		while j < 4 {
+			if j < n && keys[j] == q {
+				match vs.next() {
+					Some(v) => {
+						if !core::ptr::eq(v, &o.entries[j].value) {
+							return false;
+						}
+					}
+					None => return false,
+				}
+				match es.next() {
+					Some((k, e)) => {
+						if k != j || !core::ptr::eq(e, &o.entries[j]) {
+							return false;
+						}
+					}
+					None => return false,
+				}
+			}
+			j += 1;
+		}
+		if vs.next().is_some() || es.next().is_some() {
+			return false;
+		}
+		// unique lookups
+		match o.get_unique(name) {
+			Ok(None) => {
+				if count != 0 {
+					return false;
+				}
+			}
+			Ok(Some(v)) => {
+				if count != 1 || !core::ptr::eq(v, &o.entries[first.unwrap()].value) {
+					return false;
+				}
+			}
+			Err(super::Duplicate(a, b)) => {
+				if count < 2 || !core::ptr::eq(a, &o.entries[first.unwrap()]) || !core::ptr::eq(b, &o.entries[second.unwrap()]) {
+					return false;
+				}
+			}
+		}
+		q += 1;
+	}
+	true
+}
+
+#[cfg(kani)]
+fn any3() -> [u8; 3] {
+	let k: [u8; 3] = [kani::any(), kani::any(), kani::any()];
+	kani::assume(k[0] < 4 && k[1] < 4 && k[2] < 4);
+	k
+}
+
+#[cfg(kani)]
+fn any_small() -> u8 {
+	let k: u8 = kani::any();
+	kani::assume(k < 4);
+	k
+}
+
+// ---- list model of the documented operation semantics (arrays of codes)
+
+pub struct Model {
+	pub keys: [u8; 4],
+	pub vals: [u8; 4],
+	pub n: usize,
+}
+
+impl Model {
+	pub fn of(keys: &[u8; 3], vals: &[u8; 3], n: usize) -> Self {
+		Model {
+			keys: [keys[0], keys[1], keys[2], 0],
+			vals: [vals[0], vals[1], vals[2], 0],
+			n,
+		}
+	}
+
+	pub fn contains(&self, k: u8) -> bool {
+		let mut j = 0;
+		let mut r = false;
+		while j < 4 {
+			if j < self.n && self.keys[j] == k {
+				r = true;
+			}
+			j += 1;
+		}
+		r
+	}
+
+	pub fn push(&mut self, k: u8, v: u8) {
+		self.keys[self.n] = k;
+		self.vals[self.n] = v;
+		self.n += 1;
+	}
+
+	pub fn push_front(&mut self, k: u8, v: u8) {
+		let mut j = 3;
+		while j > 0 {
+			self.keys[j] = self.keys[j - 1];
+			self.vals[j] = self.vals[j - 1];
+			j -= 1;
+		}
+		self.keys[0] = k;
+		self.vals[0] = v;
+		self.n += 1;
+	}
+
+	pub fn remove_at(&mut self, i: usize) -> (u8, u8) {
+		let r = (self.keys[i], self.vals[i]);
+		let mut j = 0;
+		while j < 3 {
+			if j >= i {
+				self.keys[j] = self.keys[j + 1];
+				self.vals[j] = self.vals[j + 1];
+			}
+			j += 1;
+		}
+		self.n -= 1;
+		r
+	}
+
+	pub fn first_index(&self, k: u8, from: usize) -> Option<usize> {
+		let mut j = 0;
+		let mut r = None;
+		while j < 4 {
+			if j >= from && j < self.n && self.keys[j] == k && r.is_none() {
+				r = Some(j);
+			}
+			j += 1;
+		}
+		r
+	}
+}
+
+fn entry_matches(e: &Entry, kv: (u8, u8)) -> bool {
+	key_code(&e.key) == kv.0 && val_code(&e.value) == kv.1
+}
+
+macro_rules! i3_object_op {
+	($name:ident, $n:expr) => {
+		#[cfg(kani)]
+		#[kani::proof]
+		#[kani::unwind(6)]
+		#[kani::stub(smallvec::SmallVec::try_grow, crate::verif::util::no_grow)]
+		fn $name() {
+			const N: usize = $n;
+			let keys = any3();
+			let vals = any3();
+			let mut o = object_of(&keys, &vals, N);
+			let mut m = Model::of(&keys, &vals, N);
+			let k = any_small();
+			let v = any_small();
+			let op: u8 = kani::any();
+			match op {
+				0 => {
+					let fresh = o.push(key(k), val(v));
+					assert!(fresh == !m.contains(k), "C06:push-reports-fresh-key");
+					m.push(k, v);
+				}
+				1 => {
+					let fresh = o.push_front(key(k), val(v));
+					assert!(fresh == !m.contains(k), "C06:push-front-reports-fresh-key");
+					m.push_front(k, v);
+				}
+				2 => {
+					// insert: replaces the first entry with that key, removes the others, returns them in order
+					let first = m.first_index(k, 0);
+					match o.insert(key(k), val(v)) {
+						None => {
+							assert!(first.is_none(), "C06:insert-returns-none-only-for-a-fresh-key");
+							m.push(k, v);
+						}
+						Some(mut removed) => {
+							assert!(first.is_some(), "C06:insert-returns-removed-entries-for-a-present-key");
+							let f = first.unwrap();
+							let old = (m.keys[f], m.vals[f]);
+							m.vals[f] = v;
+							match removed.next() {
+								Some(e) => {
+									assert!(entry_matches(&e, old), "C06:insert-yields-the-replaced-entry-first");
+									core::mem::forget(e);
+								}
+								None => panic!("C06:insert-yields-the-replaced-entry-first"),
+							}
+							let consume: bool = kani::any();
+							if consume {
+								let mut guard = 0;
+								while guard < 3 {
+									match m.first_index(k, f + 1) {
+										Some(d) => {
+											let kv = m.remove_at(d);
+											match removed.next() {
+												Some(e) => {
+													assert!(entry_matches(&e, kv), "C06:insert-yields-removed-duplicates-in-order");
+													core::mem::forget(e);
+												}
+												None => panic!("C06:insert-yields-removed-duplicates-in-order"),
+											}
+										}
+										None => (),
+									}
+									guard += 1;
+								}
+								assert!(removed.next().is_none(), "C06:insert-yields-nothing-more");
+							} else {
+								// dropped without being consumed: duplicates are removed all the same
+								let mut guard = 0;
+								while guard < 3 {
+									if let Some(d) = m.first_index(k, f + 1) {
+										m.remove_at(d);
+									}
+									guard += 1;
+								}
+							}
+							drop(removed);
+						}
+					}
+				}
+				3 => {
+					// remove_at
+					let i: usize = kani::any();
+					kani::assume(i < 4);
+					match o.remove_at(i) {
+						None => assert!(i >= N, "C06:remove-at-none-only-past-the-end"),
+						Some(e) => {
+							assert!(i < N, "C06:remove-at-some-only-inside");
+							let kv = m.remove_at(i);
+							assert!(entry_matches(&e, kv), "C06:remove-at-returns-the-entry");
+							core::mem::forget(e);
+						}
+					}
+				}
+				4 => {
+					// remove(key): all entries with that key, in order; iterator consumed, partially consumed or dropped
+					let take: u8 = kani::any();
+					kani::assume(take <= 3);
+					{
+						let mut it = o.remove(KEYS[k as usize]);
+						let mut t = 0;
+						while t < 3 {
+							if t < take {
+								match m.first_index(k, 0) {
+									Some(d) => {
+										let kv = m.remove_at(d);
+										match it.next() {
+											Some(e) => {
+												assert!(entry_matches(&e, kv), "C06:remove-yields-matching-entries-in-order");
+												core::mem::forget(e);
+											}
+											None => panic!("C06:remove-yields-matching-entries-in-order"),
+										}
+									}
+									None => assert!(it.next().is_none(), "C06:remove-yields-nothing-more"),
+								}
+							}
+							t += 1;
+						}
+						// dropping the iterator removes the rest
+					}
+					let mut guard = 0;
+					while guard < 3 {
+						if let Some(d) = m.first_index(k, 0) {
+							m.remove_at(d);
+						}
+						guard += 1;
+					}
+				}
+				_ => {
+					// remove_unique
+					let first = m.first_index(k, 0);
+					let second = match first {
+						Some(f) => m.first_index(k, f + 1),
+						None => None,
+					};
+					match o.remove_unique(KEYS[k as usize]) {
+						Ok(None) => assert!(first.is_none(), "C06:remove-unique-none-for-absent-key"),
+						Ok(Some(e)) => {
+							assert!(first.is_some() && second.is_none(), "C06:remove-unique-ok-only-for-a-unique-key");
+							let kv = m.remove_at(first.unwrap());
+							assert!(entry_matches(&e, kv), "C06:remove-unique-returns-the-entry");
+							core::mem::forget(e);
+						}
+						Err(super::Duplicate(a, b)) => {
+							assert!(second.is_some(), "C06:remove-unique-duplicate-error-only-for-duplicates");
+							let kv2 = (m.keys[second.unwrap()], m.vals[second.unwrap()]);
+							let kv1 = (m.keys[first.unwrap()], m.vals[first.unwrap()]);
+							assert!(entry_matches(&a, kv1) && entry_matches(&b, kv2), "C06:remove-unique-duplicate-error-carries-the-first-two");
+							core::mem::forget((a, b));
+							// the documented effect: every entry with that key is gone
+							let mut guard = 0;
+							while guard < 3 {
+								if let Some(d) = m.first_index(k, 0) {
+									m.remove_at(d);
+								}
+								guard += 1;
+							}
+						}
+					}
+				}
+			}
+			assert!(object_is(&o, &m.keys, &m.vals, m.n), "C06:object-equals-list-model-and-queries-equal-linear-scan");
+			kani::cover!(op == 0 && m.contains(k));
+			kani::cover!(op == 1);
+			kani::cover!(N < 2 || (op == 2 && m.n < N));
+			kani::cover!(N < 1 || (op == 3 && m.n < N));
+			kani::cover!(N < 2 || (op == 4 && m.n + 2 == N));
+			kani::cover!(op == 5);
+			core::mem::forget(o);
+		}
+	};
+}
+
+i3_object_op!(i3_object_op_n0, 0);
+i3_object_op!(i3_object_op_n1, 1);
+i3_object_op!(i3_object_op_n2, 2);
+
+// ---------------------------------------------------------------------------
+// C09 / C10: the canonicalization comparator (object::canonical_cmp, the
+// function Object::canonicalize_with hands to sort_by)
+
+#[cfg(kani)]
+fn key_of(chars: &[char], n: usize) -> Key {
+	let mut k = Key::new();
+	let mut i = 0;
+	while i < chars.len() {
+		if i < n {
+			k.push(chars[i]);
+		}
+		i += 1;
+	}
+	k
+}
+
+#[cfg(kani)]
+fn small_value() -> Value {
+	let t: u8 = kani::any();
+	match t {
+		0 => Value::Null,
+		1 => Value::Boolean(false),
+		_ => Value::Boolean(true),
+	}
+}
+
+/// One-character keys over all of Unicode x Unicode.
+#[cfg(all(kani, feature = "canonicalize"))]
+#[kani::proof]
+#[kani::unwind(6)]
+#[kani::stub(smallvec::SmallVec::try_grow, crate::verif::util::no_grow)]
+fn c09_member_order_is_utf16_1char() {
+	let a: [char; 1] = [kani::any()];
+	let b: [char; 1] = [kani::any()];
+	let ea = Entry::new(key_of(&a, 1), small_value());
+	let eb = Entry::new(key_of(&b, 1), small_value());
+	let want = crate::verif::util::ref_utf16_cmp(&a, &b);
+	let got = super::canonical_cmp(&ea, &eb);
+	if want != Ordering::Equal {
+		assert!(got == want, "C09:members-sorted-by-utf16-code-units");
+	} else {
+		assert!(got == ea.value.cmp(&eb.value), "C10:equal-keys-ordered-by-value");
+	}
+	kani::cover!(a[0] as u32 > 0xFFFF && (b[0] as u32) >= 0xE000 && (b[0] as u32) < 0x10000 && want == Ordering::Less);
+	kani::cover!(want == Ordering::Equal);
+	kani::cover!(want == Ordering::Greater);
+	core::mem::forget((ea, eb));
+}
+
+/// Keys of 0..=2 characters (prefix relation, second-character decisions).
+#[cfg(all(kani, feature = "canonicalize"))]
+#[kani::proof]
+#[kani::unwind(8)]
+#[kani::stub(smallvec::SmallVec::try_grow, crate::verif::util::no_grow)]
+fn c09_member_order_is_utf16_2chars() {
+	let a: [char; 2] = [kani::any(), kani::any()];
+	let b: [char; 2] = [kani::any(), kani::any()];
+	let na: usize = kani::any();
+	let nb: usize = kani::any();
+	kani::assume(na <= 2 && nb <= 2);
+	let ea = Entry::new(key_of(&a, na), Value::Null);
+	let eb = Entry::new(key_of(&b, nb), Value::Null);
+	let want = crate::verif::util::ref_utf16_cmp(&a[..na], &b[..nb]);
+	assert!(super::canonical_cmp(&ea, &eb) == want, "C09:members-sorted-by-utf16-code-units");
+	kani::cover!(na == 2 && nb == 2 && a[0] == b[0] && want == Ordering::Less && a[1] as u32 > 0xFFFF);
+	kani::cover!(na == 1 && nb == 2 && a[0] == b[0]);
+	kani::cover!(na == 0 && nb == 0);
+	core::mem::forget((ea, eb));
+}
+
+/// The comparator is a total order consistent with equality: with a total
+/// order the sorted arrangement of a multiset of entries is unique up to
+/// swapping EQUAL entries (which print identically), hence canonicalization
+/// is idempotent and blind to the original member order for every object size
+/// (std's sort_by trusted to sort under the comparator it is given).
+#[cfg(all(kani, feature = "canonicalize"))]
+#[kani::proof]
+#[kani::unwind(8)]
+#[kani::stub(smallvec::SmallVec::try_grow, crate::verif::util::no_grow)]
+fn c10_comparator_is_a_total_order() {
+	let ka: [char; 2] = [kani::any(), kani::any()];
+	let kb: [char; 2] = [kani::any(), kani::any()];
+	let kc: [char; 2] = [kani::any(), kani::any()];
+	let (na, nb, nc): (usize, usize, usize) = (kani::any(), kani::any(), kani::any());
+	kani::assume(na <= 2 && nb <= 2 && nc <= 2);
+	let a = Entry::new(key_of(&ka, na), small_value());
+	let b = Entry::new(key_of(&kb, nb), small_value());
+	let c = Entry::new(key_of(&kc, nc), small_value());
+	let ab = super::canonical_cmp(&a, &b);
+	let ba = super::canonical_cmp(&b, &a);
+	let bc = super::canonical_cmp(&b, &c);
+	let ac = super::canonical_cmp(&a, &c);
+	assert!(super::canonical_cmp(&a, &a) == Ordering::Equal, "C10:comparator-reflexive");
+	assert!(ab == ba.reverse(), "C10:comparator-antisymmetric");
+	if ab != Ordering::Greater && bc != Ordering::Greater {
+		assert!(ac != Ordering::Greater, "C10:comparator-transitive");
+	}
+	if ab == Ordering::Less && bc != Ordering::Greater {
+		assert!(ac == Ordering::Less, "C10:comparator-transitive");
+	}
+	assert!((ab == Ordering::Equal) == (a == b), "C10:comparator-equal-exactly-when-entries-equal");
+	kani::cover!(ab == Ordering::Less && bc == Ordering::Less);
+	kani::cover!(ab == Ordering::Equal);
+	core::mem::forget((a, b, c));
+}
+
+/// Canonicalization changes nothing but numbers and member order: scalars
+/// other than numbers are left untouched.
+#[cfg(all(kani, feature = "canonicalize"))]
+#[kani::proof]
+#[kani::unwind(6)]
+#[kani::stub(smallvec::SmallVec::try_grow, crate::verif::util::no_grow)]
+fn c10_canonicalize_leaves_non_number_scalars_alone() {
+	let t: u8 = kani::any();
+	let c: [char; 2] = [kani::any(), kani::any()];
+	let n: usize = kani::any();
+	kani::assume(n <= 2);
+	let mut v = match t {
+		0 => Value::Null,
+		1 => Value::Boolean(kani::any()),
+		_ => Value::String(key_of(&c, n)),
+	};
+	let before = v.clone();
+	let mut buffer = ryu_js::Buffer::new();
+	v.canonicalize_with(&mut buffer);
+	assert!(v == before, "C10:canonicalize-preserves-strings-booleans-null");
+	kani::cover!(t == 2 && n == 2);
+	core::mem::forget((v, before));
+}
+
+// ---------------------------------------------------------------------------
+// C14: ==, cmp, hash and clone of objects depend on the entries only, never
+// on the state of the key index
+
+pub struct Recorder(pub Sink<12>);
+
+impl core::hash::Hasher for Recorder {
+	fn write(&mut self, bytes: &[u8]) {
+		self.0.push(bytes.len() as u8);
+		let mut i = 0;
+		while i < bytes.len() {
+			self.0.push(bytes[i]);
+			i += 1;
+		}
+	}
+
+	fn finish(&self) -> u64 {
+		0
+	}
+}
+
+macro_rules! c14_index_independence {
+	($name:ident, $n:expr) => {
+		#[cfg(kani)]
+		#[kani::proof]
+		#[kani::unwind(10)]
+		#[kani::stub(smallvec::SmallVec::try_grow, crate::verif::util::no_grow)]
+		fn $name() {
+			use core::hash::Hash;
+			const N: usize = $n;
+			let keys = any3();
+			let vals = any3();
+			// same entries; one object carries the canonical index, the other an
+			// EMPTY index (a state no history reaches: stronger than comparing histories)
+			let a = object_of(&keys, &vals, N);
+			let mut b = object_of(&keys, &vals, N);
+			b.indexes.clear();
+			assert!(a == b, "C14:object-eq-ignores-the-index");
+			assert!(a.cmp(&b) == Ordering::Equal && a.partial_cmp(&b) == Some(Ordering::Equal), "C14:object-cmp-ignores-the-index");
+			let mut ha = Recorder(Sink::new());
+			let mut hb = Recorder(Sink::new());
+			a.hash(&mut ha);
+			b.hash(&mut hb);
+			assert!(ha.0.same_as(&hb.0), "C14:object-hash-ignores-the-index");
+			// a different entry list is told apart
+			let other = any3();
+			let c = object_of(&other, &vals, N);
+			let mut same = true;
+			let mut i = 0;
+			while i < 3 {
+				if i < N && other[i] != keys[i] {
+					same = false;
+				}
+				i += 1;
+			}
+			assert!((a == c) == same, "C14:object-eq-is-entry-list-equality");
+			assert!((a.cmp(&c) == Ordering::Equal) == same, "C14:object-cmp-equal-exactly-when-eq");
+			kani::cover!(N == 0 || !same);
+			kani::cover!(same);
+			core::mem::forget((a, b, c));
+		}
+	};
+}
+
+c14_index_independence!(c14_index_independence_n0, 0);
+c14_index_independence!(c14_index_independence_n1, 1);
+c14_index_independence!(c14_index_independence_n2, 2);
+
+macro_rules! c14_clone {
+	($name:ident, $n:expr) => {
+		#[cfg(kani)]
+		#[kani::proof]
+		#[kani::unwind(6)]
+		#[kani::stub(smallvec::SmallVec::try_grow, crate::verif::util::no_grow)]
+		fn $name() {
+			const N: usize = $n;
+			let keys = any3();
+			let vals = any3();
+			let a = object_of(&keys, &vals, N);
+			let b = a.clone();
+			let m = Model::of(&keys, &vals, N);
+			assert!(object_is(&b, &m.keys, &m.vals, m.n), "C14:clone-has-the-same-entries-and-a-working-index");
+			assert!(a == b, "C14:clone-equals-original");
+			kani::cover!(N < 2 || keys[0] == keys[1]);
+			core::mem::forget((a, b));
+		}
+	};
+}
+
+c14_clone!(c14_clone_n1, 1);
+c14_clone!(c14_clone_n2, 2);
+
+// ---------------------------------------------------------------------------
+// C11: mapped iterators and lookups. The iterators never descend into
+// children: they read only sibling VOLUMES from the code map, so one level is
+// decided for children of arbitrary size (symbolic volumes).
+
+pub const MAP_LEN: usize = 16;
+
+/// A code map of MAP_LEN entries whose volumes are all arbitrary ("junk");
+/// the harness then plants the volumes the specification puts at the
+/// children's root positions.
+#[cfg(kani)]
+fn junk_code_map() -> CodeMap {
+	let mut m = CodeMap::default();
+	let mut i = 0;
+	while i < MAP_LEN {
+		let e = m.reserve(i);
+		let v: usize = kani::any();
+		kani::assume(v <= 64);
+		m.get_mut(e).unwrap().volume = v;
+		i += 1;
+	}
+	m
+}
+
+#[cfg(kani)]
+fn any_volume() -> usize {
+	let v: usize = kani::any();
+	kani::assume(v >= 1 && v <= 3);
+	v
+}
+
+macro_rules! c11_array_iter_mapped {
+	($name:ident, $k:expr) => {
+		#[cfg(kani)]
+		#[kani::proof]
+		#[kani::unwind(18)]
+		fn $name() {
+			use crate::array::JsonArray;
+			const K: usize = $k;
+			let items = [Value::Null, Value::Boolean(true), Value::Null];
+			let arr = &items[..K];
+			let mut map = junk_code_map();
+			let base: usize = kani::any();
+			kani::assume(base <= 2);
+			let vols = [any_volume(), any_volume(), any_volume()];
+			// the specification's layout: child i at base + 1 + sum of the volumes before it
+			let mut at = base + 1;
+			let mut want = [0usize; 3];
+			let mut i = 0;
+			while i < 3 {
+				if i < K {
+					want[i] = at;
+					map.get_mut(at).unwrap().volume = vols[i];
+					at += vols[i];
+				}
+				i += 1;
+			}
+			let mut it = arr.iter_mapped(&map, base);
+			let mut i = 0;
+			while i < 3 {
+				if i < K {
+					match it.next() {
+						Some(Mapped { offset, value }) => {
+							assert!(offset == want[i], "C11:array-item-offset-is-its-code-map-index");
+							assert!(core::ptr::eq(value, &arr[i]), "C11:array-items-in-order");
+						}
+						None => panic!("C11:array-iter-mapped-yields-every-item"),
+					}
+				}
+				i += 1;
+			}
+			assert!(it.next().is_none(), "C11:array-iter-mapped-yields-nothing-more");
+			kani::cover!(K < 2 || (vols[0] == 3 && base == 2));
+			core::mem::forget(map);
+		}
+	};
+}
+
+c11_array_iter_mapped!(c11_array_iter_mapped_k0, 0);
+c11_array_iter_mapped!(c11_array_iter_mapped_k1, 1);
+c11_array_iter_mapped!(c11_array_iter_mapped_k2, 2);
+c11_array_iter_mapped!(c11_array_iter_mapped_k3, 3);
+
+/// Object layout per the C05 specification: entry i at base + 1 + sum over the
+/// entries before it of (2 + volume of their value); key at +1, value at +2.
+macro_rules! c11_object_mapped {
+	($name:ident, $n:expr) => {
+		#[cfg(kani)]
+		#[kani::proof]
+		#[kani::unwind(18)]
+		#[kani::stub(smallvec::SmallVec::try_grow, crate::verif::util::no_grow)]
+		fn $name() {
+			const N: usize = $n;
+			let keys = any3();
+			let vals = [0u8, 1, 2];
+			let o = object_of(&keys, &vals, N);
+			let mut map = junk_code_map();
+			let base: usize = kani::any();
+			kani::assume(base <= 1);
+			let vols = [any_volume(), any_volume(), any_volume()];
+			let mut at = base + 1;
+			let mut want = [0usize; 3];
+			let mut i = 0;
+			while i < 3 {
+				if i < N {
+					want[i] = at;
+					map.get_mut(at + 2).unwrap().volume = vols[i];
+					at += 2 + vols[i];
+				}
+				i += 1;
+			}
+			// iter_mapped: every entry, in order
+			let mut it = o.iter_mapped(&map, base);
+			let mut i = 0;
+			while i < 3 {
+				if i < N {
+					match it.next() {
+						Some(Mapped { offset, value: e }) => {
+							assert!(offset == want[i], "C11:entry-offset-is-its-code-map-index");
+							assert!(e.key.offset == want[i] + 1 && e.value.offset == want[i] + 2, "C11:key-and-value-offsets");
+							assert!(
+								core::ptr::eq(e.key.value, &o.entries[i].key) && core::ptr::eq(e.value.value, &o.entries[i].value),
+								"C11:entries-in-order"
+							);
+						}
+						None => panic!("C11:object-iter-mapped-yields-every-entry"),
+					}
+				}
+				i += 1;
+			}
+			assert!(it.next().is_none(), "C11:object-iter-mapped-yields-nothing-more");
+			// key-based mapped lookups for a symbolic query key (present, duplicated or absent)
+			let q = any_small();
+			let name = KEYS[q as usize];
+			let mut es = o.get_mapped_entries_with_index(&map, base, name);
+			let mut vs = o.get_mapped(&map, base, name);
+			let mut count = 0;
+			let mut first = 0;
+			let mut second = 0;
+			let mut i = 0;
+			while i < 3 {
+				if i < N && keys[i] == q {
+					match es.next() {
+						Some((idx, Mapped { offset, value: e })) => {
+							assert!(idx == i && offset == want[i], "C11:mapped-lookup-entry-offset");
+							assert!(e.key.offset == want[i] + 1 && e.value.offset == want[i] + 2, "C11:mapped-lookup-key-and-value-offsets");
+						}
+						None => panic!("C11:mapped-lookup-yields-every-matching-entry"),
+					}
+					match vs.next() {
+						Some(Mapped { offset, value }) => {
+							assert!(offset == want[i] + 2 && core::ptr::eq(value, &o.entries[i].value), "C11:mapped-lookup-value-offset");
+						}
+						None => panic!("C11:mapped-lookup-yields-every-matching-value"),
+					}
+					if count == 0 {
+						first = i;
+					} else if count == 1 {
+						second = i;
+					}
+					count += 1;
+				}
+				i += 1;
+			}
+			assert!(es.next().is_none() && vs.next().is_none(), "C11:mapped-lookup-yields-nothing-more");
+			match o.get_unique_mapped_entry(&map, base, name) {
+				Ok(None) => assert!(count == 0, "C11:unique-mapped-lookup-none-for-absent-key"),
+				Ok(Some(e)) => assert!(count == 1 && e.offset == want[first], "C11:unique-mapped-lookup-offset"),
+				Err(super::Duplicate(a, b)) => {
+					assert!(count >= 2 && a.offset == want[first] && b.offset == want[second], "C11:unique-mapped-lookup-duplicate-error")
+				}
+			}
+			match o.get_unique_mapped(&map, base, name) {
+				Ok(None) => assert!(count == 0, "C11:unique-mapped-lookup-none-for-absent-key"),
+				Ok(Some(v)) => assert!(count == 1 && v.offset == want[first] + 2, "C11:unique-mapped-lookup-offset"),
+				Err(super::Duplicate(a, b)) => {
+					assert!(count >= 2 && a.offset == want[first] + 2 && b.offset == want[second] + 2, "C11:unique-mapped-lookup-duplicate-error")
+				}
+			}
+			kani::cover!(N < 2 || count == 2);
+			kani::cover!(N < 1 || count == 1);
+			kani::cover!(count == 0);
+			core::mem::forget(map);
+			core::mem::forget(o);
+		}
+	};
+}
+
+c11_object_mapped!(c11_object_mapped_n0, 0);
+c11_object_mapped!(c11_object_mapped_n1, 1);
+c11_object_mapped!(c11_object_mapped_n2, 2);
+c11_object_mapped!(c11_object_mapped_n3, 3);
